@@ -394,6 +394,17 @@ class BStr:
             hi = self._trail_end()
             return BStr(hi, list(self.ch), self.kind)
 
+    def replace(self, old, new, count=-1):
+        """single-character (or single-byte) substitution only: length-preserving, fork-free"""
+        if count != -1:
+            raise NotImplementedError('BStr.replace with a count')
+        with NoTracing():
+            o, n = self._need(old, 'replace'), self._need(new, 'replace')
+            if not (_is_const(o.n) and _is_const(n.n) and o.n.as_long() == 1 and n.n.as_long() == 1):
+                raise NotImplementedError('BStr.replace: only one-character old/new strings are modelled')
+            oc, nc = o.ch[0], n.ch[0]
+            return BStr(self.n, [z3.If(c == oc, nc, c) for c in self.ch], self.kind)
+
     def isascii(self):
         with NoTracing():
             return self._ret_bool(z3.And(*[z3.Or(i >= self.n, c < 128) for i, c in enumerate(self.ch)]))
